@@ -226,6 +226,11 @@ def gen_variant_config(rng, ndev=None, max_plugs=5):
                     cfg.node_lines.append((n, name, p))
             elif style == "list":
                 cfg.node_lines.append((compress_some(rng, nodes), name, ",".join(used)))
+            elif len(nodes) >= 2 and rng.random() < 0.5:
+                # next free hard-wired plug, in order - over SEVERAL node lines of the same device (the second line goes on where the first stopped)
+                cut = rng.randint(1, len(nodes) - 1)
+                cfg.node_lines.append((compress_some(rng, nodes[:cut]), name, None))
+                cfg.node_lines.append((compress_some(rng, nodes[cut:]), name, None))
             else:
                 cfg.node_lines.append((compress_some(rng, nodes), name, None))      # next free hard-wired plug, in order
             for n, p in zip(nodes, used):
